@@ -49,6 +49,7 @@ type Contract struct {
 	Modifies []ast.Expr
 	HasMod   bool
 	Ghosts   []GhostDef
+	GhostSets []GhostSet // ghost cells defined by the contract at function exit
 	Loops    map[int]*LoopSpec
 	PanicsIf []*Clause
 	Trusted  bool
@@ -61,6 +62,24 @@ type Contract struct {
 	AssertAt []*AssertAt
 	NoBody   bool // contract is used at call sites but body is not verified (listed as assumption)
 	WhyNoBody string
+}
+
+// GhostSet: "ghostset <ghost lvalue> := <expr>" - the function's effect on a ghost cell, applied at
+// every return before the postconditions are checked (ghost state is never read by the real code).
+type GhostSet struct {
+	LHS, RHS ast.Expr
+	Src      string
+}
+
+// LockInv: "lockinv T protects <frame items> := <invariant over self>".  Acquiring the sync.Mutex
+// embedded in a T havocs the protected frame and assumes the invariant (other goroutines may have
+// changed the state, but every Unlock re-establishes the invariant); releasing it is an obligation.
+type LockInv struct {
+	Type  string
+	Items []ast.Expr
+	Inv   ast.Expr
+	Src   string
+	File  string
 }
 
 type AssertAt struct {
@@ -155,6 +174,7 @@ type Specs struct {
 	Relies       []string
 	LitPreds     []LitPred
 	GlobalInvs   []*Pred
+	LockInvs     map[string]*LockInv // by type key: invariant protected by the embedded sync.Mutex
 	Axioms       []*Axiom
 	Lemmas       []*Lemma
 	GhostFields  map[string]*GhostField // "bytes.Buffer.content"
@@ -345,9 +365,9 @@ func splitNames(s string) []string {
 }
 
 var keywords = map[string]bool{"func": true, "serves": true, "requires": true, "ensures": true, "modifies": true,
-	"ghost": true, "loop": true, "panics_if": true, "trusted": true, "pure": true, "spec": true, "axiom": true,
+	"ghost": true, "ghostset": true, "loop": true, "panics_if": true, "trusted": true, "pure": true, "spec": true, "axiom": true,
 	"ghostfield": true, "opt": true, "assert_at": true, "rely": true, "lemma": true, "const": true, "struct": true,
-	"fresh": true, "nobody": true, "end": true, "vars": true, "pred": true, "fieldinv": true, "assume": true, "litpred": true, "globalinv": true}
+	"fresh": true, "nobody": true, "end": true, "vars": true, "pred": true, "fieldinv": true, "assume": true, "litpred": true, "globalinv": true, "lockinv": true}
 
 // parseSpecFile reads all //@ directives of a file.
 func (sp *Specs) parseFile(path, pkgPath string) error {
@@ -455,6 +475,23 @@ func (sp *Specs) parseFile(path, pkgPath string) error {
 				}
 				cur.Modifies = append(cur.Modifies, e)
 			}
+		case "ghostset":
+			if cur == nil {
+				return errf("ghostset outside func block")
+			}
+			i := strings.Index(rest, ":=")
+			if i < 0 {
+				return errf("ghostset needs :=")
+			}
+			l, err := parseExpr(strings.TrimSpace(rest[:i]))
+			if err != nil {
+				return errf("ghostset: %v", err)
+			}
+			rh, err := parseExpr(strings.TrimSpace(rest[i+2:]))
+			if err != nil {
+				return errf("ghostset: %v", err)
+			}
+			cur.GhostSets = append(cur.GhostSets, GhostSet{LHS: l, RHS: rh, Src: rest})
 		case "ghost":
 			if cur == nil {
 				return errf("ghost outside func block")
@@ -588,6 +625,30 @@ func (sp *Specs) parseFile(path, pkgPath string) error {
 				return errf("duplicate spec fn %s", sf.Name)
 			}
 			sp.SpecFns[sf.Name] = sf
+			cur = nil
+		case "lockinv":
+			i := findTop(rest, ":=")
+			j := strings.Index(rest, " protects ")
+			if i < 0 || j < 0 || j > i {
+				return errf("lockinv T protects items := invariant")
+			}
+			li := &LockInv{Type: strings.TrimSpace(rest[:j]), Src: rest, File: path}
+			for _, it := range splitTop(rest[j+len(" protects "):i], ",") {
+				e, err := parseModItem(strings.TrimSpace(it))
+				if err != nil {
+					return errf("lockinv item: %v", err)
+				}
+				li.Items = append(li.Items, e)
+			}
+			e, err := parseExpr(strings.TrimSpace(rest[i+2:]))
+			if err != nil {
+				return errf("lockinv: %v", err)
+			}
+			li.Inv = e
+			if sp.LockInvs == nil {
+				sp.LockInvs = map[string]*LockInv{}
+			}
+			sp.LockInvs[li.Type] = li
 			cur = nil
 		case "globalinv":
 			// globalinv NAME := expr  -- invariant over package-level variables that are written only
